@@ -645,7 +645,11 @@ def _constrain_ages(
         p, c = edges_parent[e], edges_child[e]
         # TODO: even if nodes_fixed[p], this will still change the age
         if nodes_time[c] + epsilon >= nodes_time[p]:
-            nodes_time[p] = nodes_time[c] + epsilon
+            # epsilon may be absorbed by rounding when times are large, so
+            # also require the parent to be strictly older than the child
+            nodes_time[p] = max(
+                nodes_time[c] + epsilon, np.nextafter(nodes_time[c], np.inf)
+            )
 
     return nodes_time
 
